@@ -13,6 +13,7 @@ Record rstate := mkr {
   r_found : option (list N);   (* sticky_session_found of the last request *)
   r_method : list N;           (* method of the last request (HEAD: the response has no body) *)
   r_edits : list edit;         (* pending per-frontend response edits *)
+  r_rw : rewrites;             (* pending per-frontend request policy *)
 }.
 
 Definition zb (z : Z) : bool := Z.eqb z 1.
@@ -35,7 +36,7 @@ Definition h2_framing (end_stream : bool) (hs : list header) : list item :=
 Definition starts_slash (t : list N) : bool := match t with 47 :: _ => true | _ => false end%N.
 
 Definition run_req (st : rstate) (c : ctx) (front back : Z) (first : list (list N)) : rstate * list tok :=
-  let clear := mkr (r_ctx st) [] [] [] (r_found st) (r_method st) (r_edits st) in
+  let clear := mkr (r_ctx st) [] [] [] (r_found st) (r_method st) (r_edits st) (mkrw None None []) in
   let hs := r_hs st in
   match first with
   | method :: target :: rest =>
@@ -47,20 +48,21 @@ Definition run_req (st : rstate) (c : ctx) (front back : Z) (first : list (list 
                   else match rest with a :: _ => Some a | [] => None end in
       match auth with
       | None => (* the callback ran: method and sticky cookie are recorded *)
-        (mkr (r_ctx st) [] [] [] (sticky_found c (v_jar w)) method (r_edits st), [TS "reject"; TS "h1_malformed"])
+        (mkr (r_ctx st) [] [] [] (sticky_found c (v_jar w)) method (r_edits st) (r_rw st), [TS "reject"; TS "h1_malformed"])
       | Some authority =>
         if Z.eqb front 1 && negb (starts_slash target) then (clear, [TS "unsupported"]) else
         let end_stream := match r_ts st with [] => true | _ => false end in
-        let items := edit_items c (v_items w) ++
-                     (if Z.eqb front 1 then [] else h2_framing end_stream (headers_of (v_items w))) in
+        let items := apply_rw_items (r_rw st) authority
+                       (edit_items c (v_items w) ++
+                        (if Z.eqb front 1 then [] else h2_framing end_stream (headers_of (v_items w)))) in
         let jar := edit_cookies c (v_jar w) in
         let jar_nonempty := match v_jar w with [] => false | _ => true end in
         let trailers := edit_trailers c (if Z.eqb front 1 then map (fun h => (fst h, ltrim (snd h))) (r_ts st) else trailers_h2 (r_ts st)) in
         let '(oh, ot) := if Z.eqb back 1 then (ser_h1 items jar_nonempty jar, trailers)
                          else (ser_h2 items jar, h2_filter trailers) in
         let hv := headers_of (v_items w) in
-        (mkr (r_ctx st) [] [] [] (sticky_found c (v_jar w)) method (r_edits st),
-         [TS "ok"; TB method; TB target; TB authority] ++ hl_toks "H" oh ++ [TS "B"; TB (r_body st)] ++
+        (mkr (r_ctx st) [] [] [] (sticky_found c (v_jar w)) method (r_edits st) (mkrw None None []),
+         [TS "ok"; TB method; TB (rw_target (r_rw st) target); TB (rw_authority (r_rw st) authority)] ++ hl_toks "H" oh ++ [TS "B"; TB (r_body st)] ++
          hl_toks "T" ot ++ [TS "K"; tn_bool (keep_alive c hv)] ++
          opt_toks (sticky_found c (v_jar w)) ++ opt_toks (Some (x_request_id c hv)) ++
          opt_toks (xff_chain c hv))
@@ -76,7 +78,7 @@ Definition resp_items (c : ctx) (found : option (list N)) (l : list item) : list
                 end) l ++ map IH (resp_added c found).
 
 Definition run_rsp (st : rstate) (c : ctx) (front back : Z) (status : list N) : rstate * list tok :=
-  let clear := mkr (r_ctx st) [] [] [] (r_found st) (r_method st) [] in
+  let clear := mkr (r_ctx st) [] [] [] (r_found st) (r_method st) [] (r_rw st) in
   let hs := r_hs st in
   let vw := if Z.eqb front 1 then view_h1 hs else Some (mkview (map IH hs) [] None) in
   match vw with
@@ -110,19 +112,28 @@ Definition step (st : rstate) (op : list tok) : rstate * list tok :=
         let c := mkctx (if zb hp then Some (mk_ip pip, Z.to_N pport) else None)
                        (mk_ip pubip, Z.to_N pubport) (zb https) sticky (zb closing) (zb elide)
                        (zb send) id idname (if zb hss then Some ss else None) in
-        (mkr (Some c) [] [] [] None [] [], [])
+        (mkr (Some c) [] [] [] None [] [] (mkrw None None []), [])
       | _ => bad end
     else if name =? "h" then
-      match args with [TB n; TB v] => (mkr (r_ctx st) (r_hs st ++ [(n, v)]) (r_ts st) (r_body st) (r_found st) (r_method st) (r_edits st), []) | _ => bad end
+      match args with [TB n; TB v] => (mkr (r_ctx st) (r_hs st ++ [(n, v)]) (r_ts st) (r_body st) (r_found st) (r_method st) (r_edits st) (r_rw st), []) | _ => bad end
     else if name =? "t" then
-      match args with [TB n; TB v] => (mkr (r_ctx st) (r_hs st) (r_ts st ++ [(n, v)]) (r_body st) (r_found st) (r_method st) (r_edits st), []) | _ => bad end
+      match args with [TB n; TB v] => (mkr (r_ctx st) (r_hs st) (r_ts st ++ [(n, v)]) (r_body st) (r_found st) (r_method st) (r_edits st) (r_rw st), []) | _ => bad end
     else if name =? "body" then
-      match args with [TB _; TB d] => (mkr (r_ctx st) (r_hs st) (r_ts st) d (r_found st) (r_method st) (r_edits st), []) | _ => bad end
+      match args with [TB _; TB d] => (mkr (r_ctx st) (r_hs st) (r_ts st) d (r_found st) (r_method st) (r_edits st) (r_rw st), []) | _ => bad end
+    else if name =? "rwhost" then
+      match args with [TB h] => (mkr (r_ctx st) (r_hs st) (r_ts st) (r_body st) (r_found st) (r_method st) (r_edits st)
+                                     (mkrw (Some h) (rw_path (r_rw st)) (rw_hdrs (r_rw st))), []) | _ => bad end
+    else if name =? "rwpath" then
+      match args with [TB p] => (mkr (r_ctx st) (r_hs st) (r_ts st) (r_body st) (r_found st) (r_method st) (r_edits st)
+                                     (mkrw (rw_host (r_rw st)) (Some p) (rw_hdrs (r_rw st))), []) | _ => bad end
+    else if name =? "hreq" then
+      match args with [TB k; TB v] => (mkr (r_ctx st) (r_hs st) (r_ts st) (r_body st) (r_found st) (r_method st) (r_edits st)
+                                           (mkrw (rw_host (r_rw st)) (rw_path (r_rw st)) (rw_hdrs (r_rw st) ++ [(k, v)])), []) | _ => bad end
     else if name =? "edit" then
       match args with
       | [TN m; TB k; TB v] =>
         let md := if Z.eqb m 0 then MAppend else if Z.eqb m 1 then MSetIfAbsent else MSet in
-        (mkr (r_ctx st) (r_hs st) (r_ts st) (r_body st) (r_found st) (r_method st) (r_edits st ++ [mkedit md k v]), [])
+        (mkr (r_ctx st) (r_hs st) (r_ts st) (r_body st) (r_found st) (r_method st) (r_edits st ++ [mkedit md k v]) (r_rw st), [])
       | _ => bad end
     else if name =? "cuts" then (st, [])
     else if name =? "req" then
@@ -146,4 +157,4 @@ Fixpoint run_from (st : rstate) (ops : list (list tok)) : list (list tok) :=
   end.
 
 Definition run_case (ops : list (list tok)) : list (list tok) :=
-  run_from (mkr None [] [] [] None [] []) ops.
+  run_from (mkr None [] [] [] None [] [] (mkrw None None [])) ops.
